@@ -179,3 +179,33 @@ def export_parts(module, nparts=16, cfg=None, env=None, timeout=900, heap="2g"):
         for recs in ex.map(one, range(nparts)):
             out.extend(recs)
     return out, time.time() - t0
+
+
+def _spec_digest():
+    import hashlib
+    h = hashlib.sha1()
+    for fn in sorted(os.listdir(SPEC)):
+        if fn.endswith(".tla") or fn.endswith(".cfg"):
+            h.update(fn.encode())
+            h.update(open(os.path.join(SPEC, fn), "rb").read())
+    return h.hexdigest()
+
+
+def cached_export_parts(module, nparts=8, env=None, timeout=900, heap="2g"):
+    """export_parts with an on-disk cache keyed by the content of spec/ and the export parameters.
+    (The export depends only on the specification, never on /repo.)"""
+    import hashlib
+    key = hashlib.sha1((_spec_digest() + module + json.dumps(env or {}, sort_keys=True) + str(nparts)).encode()).hexdigest()[:20]
+    d = os.path.join(OUT, "cache")
+    os.makedirs(d, exist_ok=True)
+    path = os.path.join(d, "%s-%s.ndjson" % (module, key))
+    if os.path.exists(path):
+        t0 = time.time()
+        return _read_ndjson(path), time.time() - t0
+    recs, wall = export_parts(module, nparts, env=env, timeout=timeout, heap=heap)
+    tmp = path + ".%d.tmp" % os.getpid()
+    with open(tmp, "w") as f:
+        for r in recs:
+            f.write(json.dumps(r, separators=(",", ":")) + "\n")
+    os.replace(tmp, path)
+    return recs, wall
